@@ -15,6 +15,12 @@ fn main() {
         std::process::exit(2);
     }
     let property = args[1].clone();
+    if property == "C03-digest" {
+        let seed: u64 = arg(&args, "--seed").and_then(|s| s.parse().ok()).unwrap_or(1);
+        melverif::guard::install();
+        println!("DIGEST {:016x}", melverif::mon::c03::scenario_digest(seed));
+        return;
+    }
     let thorough = arg(&args, "--tier").map(|t| t == "thorough").unwrap_or(false);
     let seed: u64 = arg(&args, "--seed").and_then(|s| s.parse().ok()).unwrap_or(1);
     let shard0: u64 = arg(&args, "--shard").and_then(|s| s.parse().ok()).unwrap_or(0);
